@@ -384,3 +384,36 @@ def family_val_ctl(max_n=3):
             p["exact"] = True
             out.append(p)
     return out
+
+
+# ---- F-scope (C05) ----------------------------------------------------------------------------------------------------------
+def family_scope():
+    P = []
+
+    def add(name, src, known=None):
+        P.append(dict(name=name, family="F-scope", src=src + TAIL, bounds={}, known=known))
+    add("param_shadows_global", "Z = 5\n\ndef f(a, b, c):\n    return g1(a) + Z\n\ndef g1(Z):\n    return Z + 1\n")
+    add("local_shadows_global", "Z = 5\n\ndef f(a, b, c):\n    Z = a\n    return Z + h1()\n\ndef h1():\n    return Z\n")
+    add("closure_reads_enclosing", "def f(a, b, c):\n    m = a + 1\n    def inner(y):\n        return y + m\n    return inner(b)\n")
+    add("inner_shadows_enclosing", "def f(a, b, c):\n    m = a\n    def inner(m):\n        return m + 1\n    return inner(b) + m\n")
+    add("inner_local_shadows", "def f(a, b, c):\n    m = a\n    def inner(y):\n        m = y * 2\n        return m\n    return inner(b) + m\n")
+    add("global_stmt_write", "Z = 1\n\ndef f(a, b, c):\n    setz(a)\n    return Z\n\ndef setz(v):\n    global Z\n    Z = v\n")
+    add("nonlocal_write", "def f(a, b, c):\n    n = a\n    def bump():\n        nonlocal n\n        n = n + 1\n    bump()\n    return n\n")
+    add("two_level_closure", "def f(a, b, c):\n    x = a\n    def l1():\n        y = b\n        def l2():\n            return x + y\n        return l2()\n    return l1()\n")
+    add("sibling_functions_same_local", "def f(a, b, c):\n    return p1(a) + p2(b)\n\ndef p1(v):\n    t = v + 1\n    return t\n\ndef p2(v):\n    t = v + 2\n    return t\n")
+    add("branch_local", "Z = 3\n\ndef f(a, b, c):\n    if c:\n        t = a\n    else:\n        t = Z\n    return t\n")
+    add("global_used_in_branch_only", "Z = 3\n\ndef f(a, b, c):\n    if c:\n        return Z + a\n    return b\n")
+    add("function_name_global", "def helper(v):\n    return v + 1\n\ndef f(a, b, c):\n    k = helper\n    return k(a)\n")
+    add("method_param_shadows_global", "W = 1\n\nclass C:\n    def meth(self, W):\n        return W + 1\n\ndef f(a, b, c):\n    o = C()\n    return o.meth(a) + W\n")
+    add("method_reads_global", "Q = 4\n\nclass C:\n    def meth(self, d):\n        return Q + d\n\ndef f(a, b, c):\n    o = C()\n    return o.meth(a)\n")
+    add("closure_in_branch", "def f(a, b, c):\n    m = a\n    if c:\n        def inner():\n            return m + 1\n        return inner()\n    return m\n")
+    add("nested_same_name_params", "def f(a, b, c):\n    def q(a):\n        def r(a):\n            return a + 1\n        return r(a + 10)\n    return q(b) + a\n")
+    return P
+
+
+def scope_witnesses():
+    W = []
+    W.append(dict(name="w_class_field_captures_global", family="witness", bounds={},
+                  src="Z = 5\n\nclass C:\n    Z = 9\n    def meth(self, d):\n        return Z + d\n\ndef f(a, b, c):\n    o = C()\n    return o.meth(a)\n" + TAIL,
+                  known="bare name in a method binds to the class field instead of the module global"))
+    return W
